@@ -98,7 +98,7 @@ func matchKnown(k KnownFinding, name string) bool {
 
 func stableKind(k string) bool {
 	switch {
-	case k == "ensures", k == "lemma", k == "vacuity", k == "frame", k == "lockset", k == "static":
+	case k == "ensures", k == "exit", k == "lemma", k == "vacuity", k == "frame", k == "lockset", k == "static":
 		return true
 	case strings.HasPrefix(k, "loop"), strings.HasPrefix(k, "at-call"):
 		return true
